@@ -225,7 +225,13 @@ def _sync_dtype_and_shape(
     else:
         object_list = [None]
 
-    dist.broadcast_object_list(object_list, src=rank_with_dtype, group=process_group)
+    # ``rank_with_dtype`` is a rank of ``process_group``; ``src`` is a global rank
+    src = (
+        dist.get_global_rank(process_group, rank_with_dtype)
+        if process_group is not None
+        else rank_with_dtype
+    )
+    dist.broadcast_object_list(object_list, src=src, group=process_group)
     dtype, shape = object_list[0]
     return dtype, shape
 
